@@ -6,12 +6,14 @@
   print with the Go library (`specPrint (some goLib)`) renders a text, the reference's print (`refPrint`, Props/C04d)
   renders the same text.  This is the mirror of Props/C04g `printLe_dirsIn`.
 
-  LEFT for `gen_complete_registry_goLib`: the lifting through the commands.  It is not the mirror of `ref_le_spec_*`:
-  on a value WITHOUT a JSON image (a float, an integer beyond 2^53) Spec/Eval with the Go library renders a text while
-  the reference is `unspec` — with directives `refPrint` has no fall-back as the directive-free print has
-  (`refPrint_nil_eq`) — so the induction through `spec_le_ref_*` has to carry "renders this text, or is unspec" instead
-  of "renders this text", through all nine mutual theorems (an `unspec` part makes the whole `unspec` only if nothing
-  before it is an error: the order of evaluation matters).
+  The lifting (`gen_complete_registry_goLib_partial`, `gen_complete_file_goLib_partial`): on a value WITHOUT a JSON image
+  (a float, an integer beyond 2^53) Spec/Eval with the Go library renders a text while the JSON reading of the print is
+  silent.  Props/C04d `refPrint` therefore falls back to Spec/Eval's print with the Go library where `refPrintJs` is
+  `unspec` (as it fell back to the plain print without directives; the theorems about the generated statements look at
+  the `val` / `error` answers of `refPrintJs` only, so they are untouched).  Then `PrintGe` holds (`printGe_dirsIn`), the
+  generalised `spec_le_ref_*` of C04d lift it through the commands (the reference renders what Spec/Eval renders), and
+  `calls_table_correct` (a generated function that throws ⇒ the reference does not render) gives the converse: it
+  returns the text or is `unspec`; it does not throw.
 -/
 import SoyVerif.Props.C04g
 
@@ -192,6 +194,123 @@ theorem printGe_dirs (names : List Bytes) (hdir : ∀ name ∈ names, DirEq F na
         simp [toStr?, h]
     unfold refPrint
     rw [hjs]
+
+
+/-- `PrintGe` for the directive lists over `names`, from the equational obligations for these names (and `EscapeHtmlIs`):
+    on a value with a JSON image `printGe_dirs`; on one without (a float, an integer beyond 2^53) the reference's print
+    IS Spec/Eval's with the Go library (the fall-back of `refPrint`); on a list or a map Spec/Eval with directives does
+    not render -/
+theorem printGe_dirsIn (names : List Bytes) (hdir : ∀ name ∈ names, DirEq F name) : PrintGe F (dirsOkIn names) (some goLib) := by
+  intro ae dirs env v s hok h
+  by_cases hnil : dirs = []
+  · subst hnil
+    exact print_ge_noDirs F ae hesc (some goLib) [] env v s rfl h
+  · have hne : dirs.isEmpty = false := by cases dirs <;> simp_all
+    cases hj : toJsV v with
+    | none =>
+      have hjs : refPrintJs F ae dirs v = .unspec := by simp [refPrintJs, hj]
+      simp only [refPrint, hjs, hne, Bool.false_eq_true, if_false]
+      show specPrint (some goLib) (ae != .off) env0 dirs v = .val s
+      rw [← specPrint_env names env env0 (ae != .off) dirs v hok]
+      exact h
+    | some jv =>
+      by_cases hsc : scalarV v = true
+      · exact printGe_dirs F hesc names hdir ae dirs env v jv s hok hsc hj h
+      · -- a list or a map: the Go library is not read on it
+        exfalso
+        cases dirs with
+        | nil => exact hnil rfl
+        | cons d ds =>
+          simp only [dirsOkIn, List.all_cons, Bool.and_eq_true] at hok
+          obtain ⟨hd, _⟩ := hok
+          unfold dirOkIn at hd
+          cases hl : Directives.lookup Gen.directiveTable d.name with
+          | none => simp [hl] at hd
+          | some e =>
+            simp only [hl, Bool.and_eq_true] at hd
+            obtain ⟨lits, hlits⟩ := Option.isSome_iff_exists.mp hd.1.2
+            have hD : Spec.Eval.dirsOf (some goLib) = some (modelDirSem Gen.directiveTable) := rfl
+            have hDl : (modelDirSem Gen.directiveTable).lookup d.name = some (e.arities, e.impl, e.cancel) := by
+              simp [modelDirSem, hl]
+            have happ : (modelDirSem Gen.directiveTable).apply e.impl v lits = .unspec := by
+              simp [modelDirSem, hsc]
+            unfold specPrint at h
+            rw [hD] at h
+            simp only [Option.isNone_some, Bool.and_false, Bool.false_eq_true, if_false] at h
+            split at h
+            · cases h
+            · rw [Spec.Eval.runDirs] at h
+              simp [hDl, hd.1.1, evalAll_lits env d.args lits hlits, happ, Spec.Eval.Out.bind] at h
+
+omit hesc
+
+/-! ## the converse, with directives -/
+
+/-- the equational obligations about soyutils.js, one per function (the mirror of `C04g.SoyutilsIs`) -/
+structure SoyutilsEq (F : Bytes → List Expr → JVal → JOut) : Prop where
+  escapeHtmlDir : DirEq F b!"escapeHtml"
+  changeNewlineToBr : DirEq F b!"changeNewlineToBr"
+  escapeJsString : DirEq F b!"escapeJsString"
+  escapeUri : DirEq F b!"escapeUri"
+  insertWordBreaks : DirEq F b!"insertWordBreaks"
+  json : DirEq F b!"json"
+  truncate : DirEq F b!"truncate"
+
+theorem SoyutilsEq.all {F : Bytes → List Expr → JVal → JOut} (h : SoyutilsEq F) : ∀ name ∈ libNames, DirEq F name := by
+  intro name hn
+  simp only [libNames, List.mem_cons, List.mem_nil_iff, or_false] at hn
+  rcases hn with rfl | rfl | rfl | rfl | rfl | rfl | rfl
+  · exact h.changeNewlineToBr
+  · exact h.escapeHtmlDir
+  · exact h.escapeJsString
+  · exact h.escapeUri
+  · exact h.insertWordBreaks
+  · exact h.json
+  · exact h.truncate
+
+/-- PARTIAL (C04, a whole registry, the converse WITH directives).  IF each soyutils function computes what the Go
+    directive computes (`SoyutilsIs F` and the equational `SoyutilsEq F`) THEN where Spec/Eval.render WITH THE GO LIBRARY
+    renders the template `name` on `data`, the generated function — called on the JSON image of the data, its calls
+    served by the table of the generated functions to the same depth — returns exactly this text or leaves the common
+    subset (`unspec`: a float, an integer beyond 2^53, a print of a list or a map, the loop bound); it does NOT throw. -/
+theorem gen_complete_registry_goLib_partial (hlib : SoyutilsIs F) (heq : SoyutilsEq F) (reg : Registry.Reg) (table : List JsFunc)
+    (fuel : Nat) (msgs : Bool) (hdirs : ∀ t ∈ reg, dirBlock dirsOk msgs t.body = true)
+    (htab : TableOk reg table) (globals : Spec.Eval.Binds) (ij : Option Spec.Eval.Binds) (name : Bytes)
+    (data : Spec.Eval.Binds) (jd : List (Bytes × JVal)) (hj : C04c.toJsKvs data = some jd)
+    (jij : Option (List (Bytes × JVal))) (hij : C04c.IjRel ij jij) (hgl : C04c.GlobRel globals) (d : Nat)
+    (text : Bytes) (ht : Spec.Eval.render reg globals ij msgs name data d (some goLib) = .val text) :
+    callFn F table fuel d name (.obj jd) jij = .val (.str text) ∨ callFn F table fuel d name (.obj jd) jij = .unspec :=
+  gen_complete_registry_spec_dirs_partial F reg table fuel hlib.escapeHtml dirsOk (some goLib) (printLe_dirs F hlib)
+    (printGe_dirsIn F hlib.escapeHtml libNames heq.all) msgs hdirs htab globals ij name data jd hj jij hij hgl d text ht
+
+/-- … asking the obligations only for the directives the templates use (`names`); with `names = []` (`|id`,
+    `|noAutoescape` only) `EscapeHtmlIs` alone is left — satisfied by `C04g.escF` (`escF_escape`): the hypotheses are
+    not vacuous.  (`SoyutilsEq` as a whole is satisfied by no library that leaves a function unread: it is an equation.) -/
+theorem gen_complete_registry_goLib_in_partial (hesc : EscapeHtmlIs F) (names : List Bytes)
+    (his : ∀ name ∈ names, DirIs F name) (heq : ∀ name ∈ names, DirEq F name) (reg : Registry.Reg) (table : List JsFunc)
+    (fuel : Nat) (msgs : Bool) (hdirs : ∀ t ∈ reg, dirBlock (dirsOkIn names) msgs t.body = true)
+    (htab : TableOk reg table) (globals : Spec.Eval.Binds) (ij : Option Spec.Eval.Binds) (name : Bytes)
+    (data : Spec.Eval.Binds) (jd : List (Bytes × JVal)) (hj : C04c.toJsKvs data = some jd)
+    (jij : Option (List (Bytes × JVal))) (hij : C04c.IjRel ij jij) (hgl : C04c.GlobRel globals) (d : Nat)
+    (text : Bytes) (ht : Spec.Eval.render reg globals ij msgs name data d (some goLib) = .val text) :
+    callFn F table fuel d name (.obj jd) jij = .val (.str text) ∨ callFn F table fuel d name (.obj jd) jij = .unspec :=
+  gen_complete_registry_spec_dirs_partial F reg table fuel hesc (dirsOkIn names) (some goLib) (printLe_dirsIn F hesc names his)
+    (printGe_dirsIn F hesc names heq) msgs hdirs htab globals ij name data jd hj jij hij hgl d text ht
+
+example : EscapeHtmlIs escF ∧ (∀ name ∈ ([] : List Bytes), DirIs escF name) ∧ (∀ name ∈ ([] : List Bytes), DirEq escF name) :=
+  ⟨escF_escape, fun _ h => (by cases h), fun _ h => (by cases h)⟩
+
+/-- … and for the functions the generator writes for a file of the fragment (`toFile`) -/
+theorem gen_complete_file_goLib_partial (hlib : SoyutilsIs F) (heq : SoyutilsEq F) (fuel : Nat) (f : SoyFile)
+    (rr : List JsFunc × Scope) (hfile : toFile f = some rr) (msgs : Bool)
+    (hdirs : ∀ t ∈ regOfFile f, dirBlock dirsOk msgs t.body = true)
+    (globals : Spec.Eval.Binds) (ij : Option Spec.Eval.Binds) (name : Bytes)
+    (data : Spec.Eval.Binds) (jd : List (Bytes × JVal)) (hj : C04c.toJsKvs data = some jd)
+    (jij : Option (List (Bytes × JVal))) (hij : C04c.IjRel ij jij) (hgl : C04c.GlobRel globals) (d : Nat) (text : Bytes)
+    (ht : Spec.Eval.render (regOfFile f) globals ij msgs name data d (some goLib) = .val text) :
+    callFn F rr.1 fuel d name (.obj jd) jij = .val (.str text) ∨ callFn F rr.1 fuel d name (.obj jd) jij = .unspec :=
+  gen_complete_file_dirs_partial F fuel hlib.escapeHtml dirsOk (some goLib) (printLe_dirs F hlib)
+    (printGe_dirsIn F hlib.escapeHtml libNames heq.all) f rr hfile msgs hdirs globals ij name data jd hj jij hij hgl d text ht
 
 end
 
